@@ -76,6 +76,9 @@ class OperatorDict(Mapping):
             keys_out, func = self[tuple(mv.keys() for mv in mvs)]
             expr = f"{func.__name__}({', '.join(mv.expr for mv in mvs)})"
             return TapeRecorder(self.algebra, keys=keys_out, expr=expr)
+        if any(isinstance(mv, TapeRecorder) for mv in mvs):
+            raise TypeError("While a function is being compiled its arguments can not be combined with other "
+                            "multivectors, or be passed to a registered function together with numbers.")
 
         if len(mvs) == 2:
             return self._call_binary(*mvs)
@@ -188,6 +191,9 @@ class Registry(OperatorDict):
             keys_out, func = self[keys_in]
             expr = f"{func.__name__}({', '.join(mv.expr for mv in mvs)})"
             return TapeRecorder(self.algebra, keys=keys_out, expr=expr)
+        if any(isinstance(mv, TapeRecorder) for mv in mvs):
+            raise TypeError("While a function is being compiled its arguments can not be combined with other "
+                            "multivectors, or be passed to a registered function together with numbers.")
 
         # Make sure all inputs are multivectors. If an input is not, assume its scalar.
         mvs = [mv if isinstance(mv, MultiVector) else MultiVector.fromkeysvalues(self.algebra, (0,), (mv,))
